@@ -96,6 +96,20 @@ class Twin:
         fx.set_mode('xsec')
 
 
+
+def code_raised(ctx, ex, cls, vec):
+    """An exception raised by the code under test on a valid configuration is a violation (clause
+    evaluates_without_error); an exception raised inside the harness is re-raised (machinery)."""
+    import traceback
+    if isinstance(ex, Machinery):
+        raise ex
+    tb = traceback.extract_tb(ex.__traceback__)
+    if '/harness/' in tb[-1].filename:
+        raise ex
+    ctx.verdict('evaluates_without_error', False, cls=cls,
+                detail='%s: %s at %s:%s' % (type(ex).__name__, ex, os.path.basename(tb[-1].filename), tb[-1].name), vector=vec)
+
+
 def cls_of(v):
     return '%s:%s:ng%d:n%d' % ('degenerate' if v['degenerate'] else 'generic', 'sat' if v['saturated'] else 'unsat',
                                v['ng'], len(v['kk']))
@@ -173,6 +187,24 @@ def check_vector(ctx, tw, v):
                         vector=dict(v, what='degen_T', w=wi))
 
 
+def check_vector_safe(ctx, tw, v):
+    """An exception raised by the code under test on a valid configuration is a violation, not a machinery failure."""
+    try:
+        check_vector(ctx, tw, v)
+        ctx.verdict('evaluates_without_error', True, cls='vector:' + cls_of(v), vector=dict(v, what='raise'))
+    except Machinery:
+        raise
+    except Exception as ex:
+        import traceback
+        tb = traceback.extract_tb(ex.__traceback__)
+        where = '%s:%s' % (os.path.basename(tb[-1].filename), tb[-1].name)
+        if '/harness/' in tb[-1].filename:
+            raise
+        ctx.verdict('evaluates_without_error', False, cls='vector:' + cls_of(v),
+                    detail='%s: %s at %s' % (type(ex).__name__, ex, where), vector=dict(v, what='raise'))
+        fx.set_mode('xsec')
+
+
 def run_vectors(ctx, cfg, label):
     res = ctx.check_spec('export-' + label, 'MC_KTable', cfg, workers=1, deque=True)
     vecs = res.tagged('VEC')
@@ -185,7 +217,7 @@ def run_vectors(ctx, cfg, label):
         for (tp, ng, nw), g in sorted(groups.items()):
             tw = Twin(d, [TK[t] for t in tp], WN[:nw], ng)
             for v in g:
-                check_vector(ctx, tw, v)
+                check_vector_safe(ctx, tw, v)
             ctx.add_sample(dict(vector=dict(kk=g[-1]['kk'], wts=g[-1]['wts'], tp=list(tp), ktr=g[-1]['ktr'][0][0])))
     fx.reset_all()
 
@@ -193,7 +225,7 @@ def run_vectors(ctx, cfg, label):
 def replay_vector(ctx, v):
     with fx.TempDir() as d:
         tw = Twin(d, [TK[t] for t in v['tp']], WN[:len(v['kk'][0])], v['ng'])
-        check_vector(ctx, tw, v)
+        check_vector_safe(ctx, tw, v)
     fx.reset_all()
 
 
@@ -230,98 +262,102 @@ def run_traces(ctx, n_models):
     with fx.TempDir() as d:
         for i in range(n_models):
             vec = dict(trace=True, model_index=i, seed=ctx.seed)
-            n = rng.randint(2, 12)
-            nw = rng.randint(2, 4)
-            ng = rng.randint(1, 6)
-            wn = sorted(rng.uniform(400.0, 8000.0) for _ in range(nw))
-            iso = (i % 3 == 0)
-            degenerate = (i % 4 == 1)
-            if iso:
-                temps = [rng.uniform(400.0, 2200.0)] * n
-            else:
-                temps = [rng.uniform(400.0, 2200.0) for _ in range(n)]
-            kw = dict(mix=10 ** rng.uniform(-5, -2), planet_radius=rng.uniform(0.5, 1.5), planet_mass=rng.uniform(0.5, 2.0),
-                      pmin=10 ** rng.uniform(-1, 1), pmax=10 ** rng.uniform(4, 6), ngauss=rng.randint(1, 6))
-            tw = Twin(d, temps, wn, ng, with_grey=False, kw=kw)
-            wts = random_weights(rng, ng)
-            mag = rng.choice([1e-3, 0.1, 1.0, 1.0, 4.0, 12.0])
-            kk = np.array([[[mag * rng.choice([0.0, 0.3, 1.0, 2.5]) * rng.uniform(0.2, 1.8) for _ in range(ng)]
-                            for _ in range(nw)] for _ in range(n)])
-            if degenerate:
-                kk = np.repeat(kk[:, :, :1], ng, axis=2)
-            sig = tw.sigma_from_ln2(kk)
-            kbar = np.tensordot(sig, np.array(wts), axes=([2], [0]))
-            tw.write_tables(sig, wts, xsec_sigma=kbar)
-            cls = '%s:%s:ng%d' % ('degenerate' if degenerate else 'generic', 'iso' if iso else 'noniso', ng)
-            # transmission, both modes
-            tw.k_mode()
-            _, Dk, Tk, _ = tw.kt.model.model()
-            Ik, imu, w, _ = tw.ke.model.partial_model()
-            _, Fk, _, _ = tw.ke.model.model()
-            tw.x_mode()
-            _, Dx, Tx, _ = tw.xt.model.model()
-            Ix, _, _, _ = tw.xe.model.partial_model()
-            add(dict(ev='jensen', tk=[sc(x) for x in np.ravel(Tk)], tx=[sc(x) for x in np.ravel(Tx)], S=S_T),
-                'transmission:' + cls, 'min(Tk - Tx) = %r, range [%r, %r]' % (float(np.min(Tk - Tx)), float(Tk.min()), float(Tk.max())), vec)
-            ctx.verdict('transit_depth_order', bool(np.all(Dk <= Dx * (1 + 1e-12))) , cls='transmission:' + cls,
-                        detail='k-table depth %r > averaged-coefficient depth %r' % (Dk.tolist(), Dx.tolist()), vector=vec)
-            if degenerate:
-                sat = bool((np.sum(kk[:, :, 0], axis=0) * fx.LN2).min() >= 10.0 - 1e-6)
-                hot = max(temps)
-                add(dict(ev='degen', a=[sc(x) for x in np.ravel(Tk)], b=[sc(x) for x in np.ravel(Tx)], S=S_T, slack=0),
-                    'transmission:' + cls, 'max |Tk - Tx| = %r' % float(np.max(np.abs(Tk - Tx))), vec)
-                ra, rb = [], []
-                for wi, wnv in enumerate(wn):
-                    b = fx.planck_b(wnv, hot)
-                    ra += [float(x) / b for x in Ik[:, wi]]
-                    rb += [float(x) / b for x in Ix[:, wi]]
-                add(dict(ev='degen', a=[sc(x) for x in ra], b=[sc(x) for x in rb], S=S_T,
-                         slack=(int(n * S_T * EXP_M10) + 1) if sat else 0),
-                    'emission:%s:%s' % (cls, 'sat' if sat else 'unsat'),
-                    'max |Ik - Ix|/B_hot = %r' % max(abs(x - y) for x, y in zip(ra, rb)), vec)
-                tol = [REL * abs(y) + (n * EXP_M10 if sat else 0.0) for y in rb]
-                ctx.verdict('degenerate_emission_intensity', all(abs(x - y) <= t for x, y, t in zip(ra, rb, tol)),
-                            cls='emission:%s:%s' % (cls, 'sat' if sat else 'unsat'),
-                            detail='max |Ik - Ix|/B_hot = %r' % max(abs(x - y) for x, y in zip(ra, rb)), vector=vec)
-            # emission consequences in k-table mode
-            tmin, tmax = min(temps), max(temps)
-            lo, hi = [], []
-            for wi, wnv in enumerate(wn):
-                lo += [float(x) / fx.planck_b(wnv, tmin) for x in Ik[:, wi]]
-                hi += [float(x) / fx.planck_b(wnv, tmax) for x in Ik[:, wi]]
-            add(dict(ev='bounds', lo=sc(min(lo)), hi=sc(max(hi)), S=S_T), 'emission:' + cls + ':bounds',
-                'I/B_cold >= %r, I/B_hot <= %r' % (min(lo), max(hi)), vec)
-            if iso:
-                ctx.verdict('isothermal_identity_ktable', min(lo) >= 1 - 1e-12 and max(lo) <= 1 + 1e-12,
-                            cls='emission:' + cls, detail='I/B in [%r, %r]' % (min(lo), max(lo)), vector=vec)
-                bs = [fx.planck_b(wnv, STAR_T) for wnv in wn]
-                r = [float(Fk[wi]) / (fx.planck_b(wn[wi], temps[0]) / bs[wi] * (tw.ke.rp_m / tw.ke.rs_m) ** 2) for wi in range(nw)]
-                ctx.verdict('isothermal_identity_ktable', min(r) >= 1 - 1e-12 and max(r) <= 1 + 1e-12,
-                            cls='emission:' + cls, detail='flux/blackbody ratio in [%r, %r]' % (min(r), max(r)), vector=vec)
-            # exact weighted average on integer paths through the real kernel (weights with small denominators)
-            den = rng.choice([2, 3, 4, 5, 8])
-            parts = [rng.randint(1, 4) for _ in range(ng)]
-            tot = sum(parts)
-            rw = [Fraction(p, tot) for p in parts]
-            if all(x.denominator <= 16 for x in rw):
-                taus = [[rng.randint(0, 3) for _ in range(ng)] for _ in range(n)]
-                kint = np.zeros((n, nw, ng))
-                for l_ in range(n):
-                    kint[l_, :, :] = np.array(taus[l_], dtype=float)[None, :]
-                tw.write_tables(tw.sigma_from_ln2(kint), [float(x) for x in rw])
+            try:
+                n = rng.randint(2, 12)
+                nw = rng.randint(2, 4)
+                ng = rng.randint(1, 6)
+                wn = sorted(rng.uniform(400.0, 8000.0) for _ in range(nw))
+                iso = (i % 3 == 0)
+                degenerate = (i % 4 == 1)
+                if iso:
+                    temps = [rng.uniform(400.0, 2200.0)] * n
+                else:
+                    temps = [rng.uniform(400.0, 2200.0) for _ in range(n)]
+                kw = dict(mix=10 ** rng.uniform(-5, -2), planet_radius=rng.uniform(0.5, 1.5), planet_mass=rng.uniform(0.5, 2.0),
+                          pmin=10 ** rng.uniform(-1, 1), pmax=10 ** rng.uniform(4, 6), ngauss=rng.randint(1, 6))
+                tw = Twin(d, temps, wn, ng, with_grey=False, kw=kw)
+                wts = random_weights(rng, ng)
+                mag = rng.choice([1e-3, 0.1, 1.0, 1.0, 4.0, 12.0])
+                kk = np.array([[[mag * rng.choice([0.0, 0.3, 1.0, 2.5]) * rng.uniform(0.2, 1.8) for _ in range(ng)]
+                                for _ in range(nw)] for _ in range(n)])
+                if degenerate:
+                    kk = np.repeat(kk[:, :, :1], ng, axis=2)
+                sig = tw.sigma_from_ln2(kk)
+                kbar = np.tensordot(sig, np.array(wts), axes=([2], [0]))
+                tw.write_tables(sig, wts, xsec_sigma=kbar)
+                cls = '%s:%s:ng%d' % ('degenerate' if degenerate else 'generic', 'iso' if iso else 'noniso', ng)
+                # transmission, both modes
                 tw.k_mode()
-                ab = tw.ke.absorption
-                ab.prepare(tw.ke.model, np.array(wn))
-                j = rng.randint(0, n - 1)
-                path = np.array([rng.randint(1, 2) for _ in range(n - j)], dtype=float)
-                tau = np.zeros((n, nw))
-                ab.contribute(tw.ke.model, 0, n - j, j, j, tw.cu, tau, path_length=path)
-                tg = [int(sum(taus[j + k][g] * int(path[k]) for k in range(n - j))) for g in range(ng)]
-                if max(tg) <= 40:
-                    add(dict(ev='wavg', wts=[[x.numerator, x.denominator] for x in rw], taus=tg,
-                             m=sc(math.exp(-tau[j, 0]), 100000), S=100000), 'transmission:kernel:ng%d' % ng,
-                        'observed transmittance %r' % math.exp(-tau[j, 0]), vec)
-            tw.x_mode()
+                _, Dk, Tk, _ = tw.kt.model.model()
+                Ik, imu, w, _ = tw.ke.model.partial_model()
+                _, Fk, _, _ = tw.ke.model.model()
+                tw.x_mode()
+                _, Dx, Tx, _ = tw.xt.model.model()
+                Ix, _, _, _ = tw.xe.model.partial_model()
+                add(dict(ev='jensen', tk=[sc(x) for x in np.ravel(Tk)], tx=[sc(x) for x in np.ravel(Tx)], S=S_T),
+                    'transmission:' + cls, 'min(Tk - Tx) = %r, range [%r, %r]' % (float(np.min(Tk - Tx)), float(Tk.min()), float(Tk.max())), vec)
+                ctx.verdict('transit_depth_order', bool(np.all(Dk <= Dx * (1 + 1e-12))) , cls='transmission:' + cls,
+                            detail='k-table depth %r > averaged-coefficient depth %r' % (Dk.tolist(), Dx.tolist()), vector=vec)
+                if degenerate:
+                    sat = bool((np.sum(kk[:, :, 0], axis=0) * fx.LN2).min() >= 10.0 - 1e-6)
+                    hot = max(temps)
+                    add(dict(ev='degen', a=[sc(x) for x in np.ravel(Tk)], b=[sc(x) for x in np.ravel(Tx)], S=S_T, slack=0),
+                        'transmission:' + cls, 'max |Tk - Tx| = %r' % float(np.max(np.abs(Tk - Tx))), vec)
+                    ra, rb = [], []
+                    for wi, wnv in enumerate(wn):
+                        b = fx.planck_b(wnv, hot)
+                        ra += [float(x) / b for x in Ik[:, wi]]
+                        rb += [float(x) / b for x in Ix[:, wi]]
+                    add(dict(ev='degen', a=[sc(x) for x in ra], b=[sc(x) for x in rb], S=S_T,
+                             slack=(int(n * S_T * EXP_M10) + 1) if sat else 0),
+                        'emission:%s:%s' % (cls, 'sat' if sat else 'unsat'),
+                        'max |Ik - Ix|/B_hot = %r' % max(abs(x - y) for x, y in zip(ra, rb)), vec)
+                    tol = [REL * abs(y) + (n * EXP_M10 if sat else 0.0) for y in rb]
+                    ctx.verdict('degenerate_emission_intensity', all(abs(x - y) <= t for x, y, t in zip(ra, rb, tol)),
+                                cls='emission:%s:%s' % (cls, 'sat' if sat else 'unsat'),
+                                detail='max |Ik - Ix|/B_hot = %r' % max(abs(x - y) for x, y in zip(ra, rb)), vector=vec)
+                # emission consequences in k-table mode
+                tmin, tmax = min(temps), max(temps)
+                lo, hi = [], []
+                for wi, wnv in enumerate(wn):
+                    lo += [float(x) / fx.planck_b(wnv, tmin) for x in Ik[:, wi]]
+                    hi += [float(x) / fx.planck_b(wnv, tmax) for x in Ik[:, wi]]
+                add(dict(ev='bounds', lo=sc(min(lo)), hi=sc(max(hi)), S=S_T), 'emission:' + cls + ':bounds',
+                    'I/B_cold >= %r, I/B_hot <= %r' % (min(lo), max(hi)), vec)
+                if iso:
+                    ctx.verdict('isothermal_identity_ktable', min(lo) >= 1 - 1e-12 and max(lo) <= 1 + 1e-12,
+                                cls='emission:' + cls, detail='I/B in [%r, %r]' % (min(lo), max(lo)), vector=vec)
+                    bs = [fx.planck_b(wnv, STAR_T) for wnv in wn]
+                    r = [float(Fk[wi]) / (fx.planck_b(wn[wi], temps[0]) / bs[wi] * (tw.ke.rp_m / tw.ke.rs_m) ** 2) for wi in range(nw)]
+                    ctx.verdict('isothermal_identity_ktable', min(r) >= 1 - 1e-12 and max(r) <= 1 + 1e-12,
+                                cls='emission:' + cls, detail='flux/blackbody ratio in [%r, %r]' % (min(r), max(r)), vector=vec)
+                # exact weighted average on integer paths through the real kernel (weights with small denominators)
+                den = rng.choice([2, 3, 4, 5, 8])
+                parts = [rng.randint(1, 4) for _ in range(ng)]
+                tot = sum(parts)
+                rw = [Fraction(p, tot) for p in parts]
+                if all(x.denominator <= 16 for x in rw):
+                    taus = [[rng.randint(0, 3) for _ in range(ng)] for _ in range(n)]
+                    kint = np.zeros((n, nw, ng))
+                    for l_ in range(n):
+                        kint[l_, :, :] = np.array(taus[l_], dtype=float)[None, :]
+                    tw.write_tables(tw.sigma_from_ln2(kint), [float(x) for x in rw])
+                    tw.k_mode()
+                    ab = tw.ke.absorption
+                    ab.prepare(tw.ke.model, np.array(wn))
+                    j = rng.randint(0, n - 1)
+                    path = np.array([rng.randint(1, 2) for _ in range(n - j)], dtype=float)
+                    tau = np.zeros((n, nw))
+                    ab.contribute(tw.ke.model, 0, n - j, j, j, tw.cu, tau, path_length=path)
+                    tg = [int(sum(taus[j + k][g] * int(path[k]) for k in range(n - j))) for g in range(ng)]
+                    if max(tg) <= 40:
+                        add(dict(ev='wavg', wts=[[x.numerator, x.denominator] for x in rw], taus=tg,
+                                 m=sc(math.exp(-tau[j, 0]), 100000), S=100000), 'transmission:kernel:ng%d' % ng,
+                            'observed transmittance %r' % math.exp(-tau[j, 0]), vec)
+                tw.x_mode()
+            except Exception as ex:
+                code_raised(ctx, ex, 'trace:model', vec)
+                fx.set_mode('xsec')
     fx.reset_all()
     accepted, bad, res = validate_trace('Trace_KTable', 'Trace_KTable.cfg', events)
     ctx.add_tlc('trace-ktable', res, counts=False)
